@@ -162,6 +162,39 @@ fn gen_c01(tier: &str, rng: &mut Rng) -> Vec<Case> {
         let id = cases.len();
         cases.push(mk_case(id, 0, cfg, width, html.into_bytes(), Some(0), g("sparse"), "sparse_tables"));
     }
+    // attribute values the renderer looks into, filled with short strings that mix ASCII, hex
+    // digits and multi-byte characters at every byte offset
+    let na = if thorough { 40000 } else { 2500 };
+    for _ in 0..na {
+        let mut val = String::new();
+        for _ in 0..rng.range(0, 9) {
+            val.push_str(*rng.pick(&["a", "f", "0", "9", "#", " ", "é", "中", "\u{1F600}", "-", "+", "1", "rgb(", ")", ",", "%", ";", ":", "x", "\u{301}", "n", "\t"]));
+        }
+        let mut esc = String::new();
+        for c in val.chars() {
+            match c {
+                '&' => esc.push_str("&amp;"),
+                '"' => esc.push_str("&quot;"),
+                c => esc.push(c),
+            }
+        }
+        let html = match rng.below(9) {
+            0 => format!("<p>a <font color=\"{}\">x y</font> b</p>", esc),
+            1 => format!("<table><tr><td bgcolor=\"{}\">x</td><td>y</td></tr></table>", esc),
+            2 => format!("<table><tr><td colspan=\"{}\">x</td><td>y</td></tr><tr><td>z</td></tr></table>", esc),
+            3 => format!("<ol start=\"{}\"><li>x</li><li>y</li></ol>", esc),
+            4 => format!("<p><a href=\"{}\">x</a> <img src=\"{}\" alt=\"{}\"></p>", esc, esc, esc),
+            5 => format!("<p style=\"color:{}\">x</p><p style=\"{}\">y</p>", esc, esc),
+            6 => format!("<p id=\"{}\" class=\"{}\">x</p><a name=\"{}\">y</a>", esc, esc, esc),
+            7 => format!("<body bgcolor=\"{}\" text=\"{}\"><p color=\"{}\">x</p></body>", esc, esc, esc),
+            _ => format!("<p><span style=\"background:{};display:{}\">x</span></p>", esc, esc),
+        };
+        let mut cfg = rand_cfg(rng, &[0, 1, 2, 3], true, true);
+        cfg.doc_css = rng.chance(2, 3);
+        let width = rng.range(1, 40);
+        let id = cases.len();
+        cases.push(mk_case(id, 0, cfg, width, html.into_bytes(), Some(0), g("attr"), "attribute_values"));
+    }
     // deep nesting (implementation only: stack / time)
     let depths: &[usize] = if thorough { &[1000, 10000, 30000, 100000] } else { &[500, 3000] };
     for &d in depths {
@@ -453,7 +486,20 @@ fn gen_c11(tier: &str, rng: &mut Rng) -> Vec<Case> {
     let mut cases = Vec::new();
     for gi in 0..n {
         let tables = rng.chance(1, 3);
-        let (html, _) = gen_doc(rng, GenOpts { tables: if tables { 2 } else { 0 }, nested_tables: tables, ..GenOpts::all() });
+        let (mut html, _) = gen_doc(rng, GenOpts { tables: if tables { 2 } else { 0 }, nested_tables: tables, ..GenOpts::all() });
+        // prefixed blocks without any content (their minimum width is 0)
+        if rng.chance(1, 6) {
+            let e = *rng.pick(&[
+                "<ul><li></li></ul>",
+                "<ol start=\"100\"><li></li><li></li></ol>",
+                "<dl><dd></dd></dl>",
+                "<blockquote><span id=\"x\"></span></blockquote>",
+                "<blockquote><table><tr><td></td></tr></table></blockquote>",
+                "<table><tr><td>a</td><td><ul><li></li></ul></td></tr></table>",
+                "<h3></h3><ul><li><ol><li></li></ol></li></ul>",
+            ]);
+            html = if rng.chance(1, 2) { e.to_string() } else { format!("{}{}", html, e) };
+        }
         let mut bytes = html.into_bytes();
         if rng.chance(1, 6) {
             bytes = mutate(rng, &bytes);
